@@ -1101,7 +1101,7 @@ func (h *histState) doLoadCfg(i int, op *Op) {
 		case "reader":
 			fr := &faultReader{data: []byte(s.Text), f: *s.Fault, fired: h.ctr}
 			cfg, err = lint.NewConfig(fr)
-		case "file", "file_missing", "file_dir":
+		case "file", "file_missing", "file_dir", "fifo":
 			if h.tmpDir == "" {
 				h.tmpDir = filepath.Join(verifRoot(), "work", "tmp", fmt.Sprintf("w%d", os.Getpid()))
 				os.MkdirAll(h.tmpDir, 0o755)
@@ -1117,6 +1117,37 @@ func (h *histState) doLoadCfg(i int, op *Op) {
 					h.ctr.inc("file_truncated")
 				} else {
 					h.ctr.inc("file_whole")
+				}
+			case "fifo":
+				path = filepath.Join(h.tmpDir, fmt.Sprintf("cfg%d-%d.fifo", op.Cfg, i))
+				if merr := syscall.Mkfifo(path, 0o644); merr != nil {
+					die(2, "cannot make a named pipe: %v", merr)
+				}
+				d, _ := deliveredBytes(s.Text, s.Fault)
+				chunk := 64
+				if len(s.Fault.Chunks) > 0 && s.Fault.Chunks[0] > 0 {
+					chunk = s.Fault.Chunks[0]
+				}
+				go func() {
+					// the writer end: opens once the reader has, writes the delivered bytes chunk by chunk, closes
+					w, werr := os.OpenFile(path, os.O_WRONLY, 0)
+					if werr != nil {
+						return
+					}
+					defer w.Close()
+					for pos := 0; pos < len(d); pos += chunk {
+						end := pos + chunk
+						if end > len(d) {
+							end = len(d)
+						}
+						if _, werr := w.Write([]byte(d[pos:end])); werr != nil {
+							return
+						}
+					}
+				}()
+				h.ctr.inc("fault/config_through_named_pipe")
+				if d != s.Text {
+					h.ctr.inc("fault/named_pipe_writer_died_early")
 				}
 			case "file_missing":
 				path = filepath.Join(h.tmpDir, "does-not-exist.toml")
